@@ -149,10 +149,12 @@ fn kinds(thorough: bool) -> Vec<OperandKind> {
         OperandKind { name: "(int)->int", ty: "(int) -> int", lits: ["(v: int) -> int { return v * 7 }", "(v: int) -> int { return v * 3 }", "(v: int) -> int { return v * 2 }", "(v: int) -> int { return v * 5 }"], is_cell: false },
         OperandKind { name: "(int)->bool", ty: "(int) -> bool", lits: ["(v: int) -> bool { return v > 7 }", "(v: int) -> bool { return v > 3 }", "(v: int) -> bool { return v > 2 }", "(v: int) -> bool { return v > 5 }"], is_cell: false },
         OperandKind { name: "array", ty: "[int]", lits: ["[7, 8]", "[3]", "[2, 2]", "[5]"], is_cell: false },
+        // values chosen so that regrouping changes the rounding / overflow of float arithmetic
+        OperandKind { name: "float", ty: "float", lits: ["0.1", "0.2", "0.3", "1e308"], is_cell: false },
     ];
     if thorough {
         v.extend([
-            OperandKind { name: "float", ty: "float", lits: ["7.5", "3.5", "2.5", "5.5"], is_cell: false },
+            OperandKind { name: "mut float", ty: "mut float", lits: ["mut 0.1", "mut 0.2", "mut 0.3", "mut 1e308"], is_cell: true },
             OperandKind { name: "mut bool", ty: "mut bool", lits: ["mut true", "mut false", "mut true", "mut false"], is_cell: true },
             OperandKind { name: "bool iterator", ty: "() -> (bool, bool)", lits: ["[true, false]~", "[false]~", "[true]~", "[]~ ? bool"], is_cell: false },
             OperandKind { name: "(int,int)->int", ty: "(int, int) -> int", lits: ["(x: int, y: int) -> int { return x * 7 + y }", "(x: int, y: int) -> int { return x * 3 + y }", "(x: int, y: int) -> int { return x * 2 + y }", "(x: int, y: int) -> int { return x - y }"], is_cell: false },
@@ -191,6 +193,7 @@ fn alt_lit(k: &OperandKind, pos: usize, alt: usize) -> &'static str {
         "int" => INTS[alt % 3][pos],
         "mut int" => CELLS[alt % 3][pos],
         "bool" => BOOLS[alt % 3][pos],
+        "float" => [["0.1", "0.2", "0.3", "1e308"], ["1e308", "1e308", "1e308", "0.5"], ["3.0", "2.0", "0.5", "7.0"]][alt % 3][pos],
         _ => k.lits[pos],
     }
 }
